@@ -178,9 +178,10 @@ def case_wt(rec, c):
 # dilute limit
 
 POTS = {'HS': ['HS', {}], 'HCLJ': ['HCLJ', {'epsilon': 0.5}], 'EXP': ['EXP', {'epsilon': 0.6, 'alpha': 0.5}],
-        'LJ': ['LJ', {'epsilon': 0.5, 'rcut': 2.5, 'shift': True}], 'WCA': ['WCA', {'epsilon': 1.0}]}
+        'LJ': ['LJ', {'epsilon': 0.5, 'rcut': 2.5, 'shift': True}], 'WCA': ['WCA', {'epsilon': 1.0}],
+        'LJcut': ['LJ', {'epsilon': 0.5, 'rcut': 2.5, 'shift': False}]}       # truncated, not shifted (the constructor's default for shift): a small jump of e^{-u/kT} at r_cut
 CLOS = {'PY': ['PY', False], 'HNC': ['HNC', False], 'MSAhc': ['MSA', True]}
-RHOS = [1e-2, 1e-3, 1e-4, 1e-5, 1e-7]
+RHOS = [1e-2, 1e-3, 1e-4, 1e-5, 1e-7, 1e-8, 1e-9]
 
 
 def mayer(pname, cname, kT, r):
@@ -198,7 +199,7 @@ def mayer(pname, cname, kT, r):
 
 def b2_exact(pname, cname, kT):
     """-2 pi Int f r^2 dr by Gauss-Legendre on the smooth pieces."""
-    edges = [0.0, 1.0, 2 ** (1.0 / 6.0), 2.5, 6.0, 12.0, 26.0] if pname in ('LJ', 'WCA') else [0.0, 1.0, 1.5, 2.5, 6.0, 12.0, 26.0]
+    edges = [0.0, 1.0, 2 ** (1.0 / 6.0), 2.5, 6.0, 12.0, 26.0] if pname in ('LJ', 'WCA', 'LJcut') else [0.0, 1.0, 1.5, 2.5, 6.0, 12.0, 26.0]
     tot = 0.0
     for a, b in zip(edges[:-1], edges[1:]):
         r = 0.5 * (GLX + 1) * (b - a) + a
@@ -262,6 +263,9 @@ def case_dilute(rec, c):
         B2x = b2_exact(pname, cname, kT)
         jump = abs(float(mayer(pname, cname, kT, np.array([1.0 + 1e-5]))[0][0]) - 0.0) if hard else 0.0      # g(sigma+) - g(sigma-)  (1e-5: outside the 1e-6 contact tolerance)
         cf = 4 * np.pi * float(np.sum(r * np.abs(f)) * dr) + 4 * np.pi * jump
+        if pname == 'LJcut':         # second discontinuity of the integrand, at r_cut
+            gc_ = mayer(pname, cname, kT, np.array([2.5 * (1 - 1e-9), 2.5 * (1 + 1e-9)]))[0]
+            cf += 4 * np.pi * 2.5 ** 2 * abs(float(gc_[0] - gc_[1]))
         dk = float(P.sys.domain.dk)
         c4 = (4 * np.pi / 120.0) * float(np.sum(r ** 6 * np.abs(f)) * dr)
         bB = 0.5 * cf * dr + rho * (1 + finf) * f1 * f1 * gmax + 18 * dk ** 4 * c4 + 1e-9
@@ -295,7 +299,7 @@ def run(rec, tier, seed):
     kTs = [0.5, 3.0] if quick else [0.5, 0.7, 1.0, 1.5, 3.0]
     drs = [0.1] if quick else [0.1, 0.05, 0.025, 0.0125]
     for p, cl, kT, dr in itertools.product(pots, clos, kTs, drs):
-        if cl == 'MSAhc' and p == 'LJ':
+        if cl == 'MSAhc' and p in ('LJ', 'LJcut'):
             continue            # (MSA with the flag on the soft WCA potential is included: 1 - u/kT goes negative next to the core)
         cases.append({'kind': 'dilute', 'potential': p, 'closure': cl, 'kT': kT, 'dr': dr})
     # the same ladders on lengths that are not powers of two: 7*2^4, prime, 11^2, 2^3*3*5 (r_max = 0.2*base)
